@@ -182,6 +182,27 @@ def run(ctx):
         except Exception as ex:  # noqa
             r = repr(ex)
         ctx.judge(r == (), {"kind": "config", "name": ""}, ("C20", "unbound"), "C20:unbound-not-empty", (), r)
+        # the mapping is a function of the name: repeated lookups, interleaved with other
+        # valid, invalid and unbound names, must always give the same answer
+        names = config_names() + INVALID_CONFIG + [""]
+        answers = {}
+        order = [rng.choice(names) for _ in range(4000)] + names + names[::-1]
+        prev = None
+        for name in order + [x for n in INVALID_CONFIG for x in (n, n, "C-a", n)]:
+            try:
+                a = ("ok", keymap[name])
+            except Exception as ex:  # noqa
+                a = ("raise", type(ex).__name__)
+            if name in answers and answers[name] != a:
+                ctx.judge(False, {"kind": "config-history", "name": name, "previous_lookup": prev},
+                          ("C20", "confighist", name, prev), "C20:keymap-answer-depends-on-history",
+                          answers[name], a)
+                break
+            answers.setdefault(name, a)
+            prev = name
+        else:
+            ctx.judge(True, {"kind": "config-history"}, ("C20", "confighist"))
+        ctx.count("config_lookups_in_histories", len(order))
         for name in INVALID_CONFIG:
             try:
                 ctx.count("invalid_config:%s->%r" % (name, keymap[name]))
